@@ -128,6 +128,16 @@ var props = []*prop{
 		Fuzz:        &fuzzCfg{Target: "FuzzC06", Seconds: 300},
 	},
 	{
+		ID: "C08", Pkg: "c08", Level: "exploration",
+		Technique:   "stateful property-based testing (rapid): generated call sequences on one long-lived validator, differential against freshly built validators and against the validator's own earlier answers",
+		LevelText:   "One non-recycling schema / parameter / header validator per case, 5..40 Validate calls over a pool of values with repeats in generated order; each outcome (verdict, message sets) must equal that of a validator freshly built from a re-parsed definition and the earlier outcome for the same value.",
+		LevelNote:   "Trusted: outcome normalisation (sets of messages), encoding/json re-decoding of values per call. No reference model is involved: the oracle is the library's own fresh validator, which is what the property states.",
+		Assumptions: trusted,
+		Builds:      plain,
+		Quick:       budget{Shards: 14, Checks: 4000, TimeoutS: 400},
+		Thorough:    budget{Shards: 14, Checks: 100000, TimeoutS: 3000},
+	},
+	{
 		ID: "C13", Pkg: "c13", Level: "exploration",
 		Technique:   "property-based testing (rapid): exact big.Rat arithmetic as oracle, plus the metamorphic relation 'all Go carriers of one mathematical value get the same verdict'",
 		LevelText:   "Generated (value, carrier kind, constraint, entry point) tuples with exactly representable values over all signed/unsigned integer kinds, float32, float64 and json.Number, through AgainstSchema, parameter and header validators and the exported helpers incl. the *NativeType facades; verdicts compared with exact rational arithmetic and across carriers.",
